@@ -43,7 +43,7 @@ def ticks (k : Consts) (a : AnnIn) : Nat :=
 
 def runCase (k : Consts) (cfg : Cfg) (target : Str) (t : DevTree) (searches : List SearchIn)
     (ann : Option AnnIn) : CaseObs :=
-  { tree := t, location := cfg.location, target := target,
+  { tree := t, alwaysRoot := k.alwaysRoot, location := cfg.location, target := target,
     searches := searches.map (runSearch k cfg t),
     alives := match ann with
       | none => []
